@@ -1,6 +1,153 @@
-"""Supporting static facts (DESIGN C13, C17): scans of the compiled objects / goto symbol table."""
-CHECKS = []
+"""Supporting static facts (DESIGN C13, C17): scans of the compiled objects / goto symbol table.
+They are not proofs; they decide the sentences 'no direct libc allocation reference' (C13) and
+'no hidden mutable global state' (C17: function-local statics, which DFCC admits silently)."""
+import glob, json, os, re, shutil, subprocess, tempfile
+
+from . import driver
+
+FORBIDDEN = {"malloc", "calloc", "realloc", "free", "strdup", "strndup", "aligned_alloc", "posix_memalign",
+             "reallocarray", "valloc", "memalign", "pvalloc"}
+ALLOCATORS_MAY = {"malloc", "realloc", "free"}
+
+# static-lifetime objects the library is known to have (DESIGN C17): name -> (const?, where it may be written)
+STATIC_ALLOW = {
+    "_cbor_malloc": ("mutable", {"cbor_set_allocs"}),
+    "_cbor_realloc": ("mutable", {"cbor_set_allocs"}),
+    "_cbor_free": ("mutable", {"cbor_set_allocs"}),
+    "cbor_load::1::callbacks": ("mutable", set()),   # never written; address only passed as const struct cbor_callbacks*
+    "cbor_empty_callbacks": ("const", set()),
+    "kMaxEmbeddedInt": ("const", set()),
+    "utf8d": ("const", set()),
+    "cbor_major_version": ("const", set()), "cbor_minor_version": ("const", set()), "cbor_patch_version": ("const", set()),
+}
+
+
+def lib_sources():
+    s = driver.SRC
+    return sorted(glob.glob(os.path.join(s, "*.c")) + glob.glob(os.path.join(s, "cbor", "*.c")) +
+                  glob.glob(os.path.join(s, "cbor", "internal", "*.c")))
+
+
+def check_nm(spec):
+    tmp = tempfile.mkdtemp(prefix="verif-nm-")
+    try:
+        gen = os.path.join(tmp, "gen")
+        driver.gen_headers(gen)
+        fails, samples, n = [], [], 0
+        for f in lib_sources():
+            o = os.path.join(tmp, os.path.basename(f) + ".o")
+            cmd = ["clang", "-c", "-O2", "-fno-builtin", "-DNDEBUG"] + driver.REAL_DEFINES + ["-I", gen, "-I", driver.SRC, f, "-o", o]
+            p = subprocess.run(cmd, stdout=subprocess.PIPE, stderr=subprocess.STDOUT)
+            if p.returncode != 0:
+                return dict(undecided="clang failed on %s: %s" % (f, p.stdout.decode()[-500:]), obligations=0, failures=[])
+            out = subprocess.run(["nm", "-u", o], stdout=subprocess.PIPE).stdout.decode()
+            und = {l.split()[-1] for l in out.splitlines() if l.strip()}
+            n += 1
+            bad = und & FORBIDDEN
+            if os.path.basename(f) == "allocators.c":
+                bad -= ALLOCATORS_MAY
+            rel = os.path.relpath(f, driver.REPO)
+            for b in sorted(bad):
+                fails.append(dict(id="nm.%s.%s" % (os.path.basename(f), b), file=f,
+                                  what="C13: %s references the C library's %s directly (bypasses the configured allocator)" % (rel, b)))
+            samples.append("nm -u %s: %s" % (rel, ",".join(sorted(und & (FORBIDDEN | {"_cbor_malloc", "_cbor_realloc", "_cbor_free"}))) or "-"))
+        return dict(obligations=n, failures=fails, samples=samples, cmd="clang -c -fno-builtin <each library TU>; nm -u")
+    finally:
+        shutil.rmtree(tmp, ignore_errors=True)
+
+
+def _is_const(t):
+    if not isinstance(t, dict):
+        return False
+    if t.get("namedSub", {}).get("#constant"):
+        return True
+    if t.get("id") == "array" and t.get("sub"):
+        return _is_const(t["sub"][0])
+    return False
+
+
+def check_statics(spec):
+    tmp = tempfile.mkdtemp(prefix="verif-st-")
+    try:
+        gen = os.path.join(tmp, "gen")
+        driver.gen_headers(gen)
+        gb = os.path.join(tmp, "all.gb")
+        cmd = ["goto-cc", "-DNDEBUG"] + driver.REAL_DEFINES + ["-I", gen, "-I", driver.SRC] + lib_sources() + ["-o", gb]
+        p = subprocess.run(cmd, stdout=subprocess.PIPE, stderr=subprocess.STDOUT)
+        if p.returncode != 0:
+            return dict(undecided="goto-cc failed: " + p.stdout.decode()[-500:], obligations=0, failures=[])
+        out = subprocess.run(["goto-instrument", "--show-symbol-table", "--json-ui", gb], stdout=subprocess.PIPE,
+                             stderr=subprocess.DEVNULL).stdout.decode()
+        st = None
+        for e in json.loads(out):
+            if "symbolTable" in e:
+                st = e["symbolTable"]
+        if st is None:
+            return dict(undecided="no symbol table", obligations=0, failures=[])
+        fails, samples, n = [], [], 0
+        statics = []
+        for name, s in st.items():
+            if not s.get("isStaticLifetime") or s.get("isType") or s.get("type", {}).get("id") == "code":
+                continue
+            if name.startswith("__CPROVER") or s.get("isThreadLocal"):
+                continue
+            loc = s.get("location", {}).get("file", "") or ""
+            if "/src/" not in loc and not loc.startswith(driver.SRC):
+                continue
+            n += 1
+            const = _is_const(s["type"])
+            statics.append(name)
+            allow = STATIC_ALLOW.get(name)
+            if allow is None and not const:
+                fails.append(dict(id="static." + name, file=loc, line=s.get("location", {}).get("line"),
+                                  what="C17: new mutable static-lifetime object '%s' (%s) - hidden global state" % (name, loc)))
+            elif allow is not None and allow[0] == "const" and not const:
+                fails.append(dict(id="static." + name, file=loc,
+                                  what="C17: static object '%s' is no longer const" % name))
+            samples.append("%s: %s" % (name, "const" if const else "mutable, on the allow-list" if allow else "mutable, NOT allowed"))
+        # writes: which function assigns to a static-lifetime object
+        txt = subprocess.run(["goto-instrument", "--show-goto-functions", gb], stdout=subprocess.PIPE,
+                             stderr=subprocess.DEVNULL).stdout.decode()
+        fn = None
+        nfn = 0
+        for line in txt.splitlines():
+            m = re.match(r"^(\S+) /\* \S+ \*/$", line)
+            if m:
+                fn = m.group(1)
+                nfn += 1
+                continue
+            m = re.match(r"^\s+(?:\d+: )?ASSIGN (.*?) := ", line) or re.match(r"^\s+(?:\d+: )?CALL (.*?) := ", line)
+            if not m or fn is None or fn.startswith("__CPROVER"):
+                continue
+            lhs = m.group(1)
+            for name in statics:
+                if re.search(r"(?<![\w:$])%s(?![\w:$])" % re.escape(name), lhs):
+                    allowed = STATIC_ALLOW.get(name, ("", set()))[1]
+                    if fn not in allowed:
+                        fails.append(dict(id="write.%s.%s" % (fn, name),
+                                          what="C17: function %s writes static-lifetime object %s (%s)" % (fn, name, lhs[:80])))
+        n += nfn
+        return dict(obligations=n, failures=fails, samples=samples[:8],
+                    cmd="goto-cc <whole library, rel flavour>; goto-instrument --show-symbol-table/--show-goto-functions")
+    finally:
+        shutil.rmtree(tmp, ignore_errors=True)
+
+
+CHECKS = [
+    dict(name="static_nm_scan", props=["C13"], fn=check_nm),
+    dict(name="static_symbol_scan", props=["C17"], fn=check_statics),
+]
 
 
 def run(s):
-    return s["fn"](s)
+    try:
+        r = s["fn"](s)
+        seen, uniq = set(), []
+        for f in r.get("failures", []):
+            if f["id"] not in seen:
+                seen.add(f["id"])
+                uniq.append(f)
+        r["failures"] = uniq
+        return r
+    except Exception as e:
+        return dict(undecided="static check crashed: %r" % (e,), obligations=0, failures=[])
